@@ -22,8 +22,20 @@ def attribute(steps, base=None, cpu_s=3.0):
     cache = {}
 
     def run(text):
+        """Behaviour of an intermediate text. Rules may emit `heapq.` / `collections.` / `np.` and leave the import to the pipeline's later
+        add_missing_imports step, so a text that fails with a NameError is judged with that step applied."""
         if text not in cache:
-            cache[text] = oracle_exec.run_program(text, cpu_s)
+            res = oracle_exec.run_program(text, cpu_s)
+            if res[0] == "exc:NameError":
+                try:
+                    again = hooks.mods()["fixes"].add_missing_imports(text)
+                except Exception:
+                    again = text
+                if again != text:
+                    res2 = oracle_exec.run_program(again, cpu_s)
+                    if res2[0] != "exc:NameError":
+                        res = res2
+            cache[text] = res
         return cache[text]
 
     for s in steps:
